@@ -126,7 +126,23 @@ void f2s(Rng& rng)
 {
     std::string mode = TagN<Tag>::name();
     using B = scaled_integer<D, power<ED>>;
-    for (F x : round_inputs<F, D>(rng, ED)) {
+    std::vector<F> xs = round_inputs<F, D>(rng, ED);
+    // n * 2^(ED-7) (exact in every format): all small n of both signs (every 128th of the destination unit up to
+    // +-2.5 units), random n up to 2^17, and the same offsets below / above the destination limits
+    {
+        using L = std::numeric_limits<D>;
+        for (int n = -320; n <= 320; ++n) vhf::push_f(xs, std::ldexp(F(n), ED - 7));
+        for (int i = 0; i < 24 * scale_from_env(); ++i) {
+            int n = int(rng.next() % 131072u);
+            vhf::push_f(xs, std::ldexp(F((i & 1) ? -n : n), ED - 7));
+        }
+        // (float cannot hold limit +- n/128 for wide D: the sum is rounded to the format; still a lattice point)
+        for (int n = -192; n <= 192; n += (sizeof(D) * 8 + 7 > unsigned(vhf::FI<F>::prec) ? 16 : 1)) {
+            vhf::push_f(xs, F(std::ldexp(F(L::max()), ED) + std::ldexp(F(n), ED - 7)));
+            vhf::push_f(xs, F(std::ldexp(F(L::lowest()), ED) + std::ldexp(F(n), ED - 7)));
+        }
+    }
+    for (F x : xs) {
         printf("C09 f2s %s %s %s %d ", mode.c_str(), vhf::FN<F>::name, tn<D>().c_str(), ED);
         vhf::prf(x);
         fputs(" => ", stdout);
